@@ -59,6 +59,12 @@ ARCH = {
     'rsa1024-slow': {'kex': ['curve25519-sha256'], 'key': ['ssh-rsa', 'ssh-ed25519'], 'hostkeys': dict(rsa_hk(1024), **HK_ED), 'latency': True},
     'gex1024-slow': {'banner': 'SSH-2.0-dropbear_2020.81', 'kex': ['curve25519-sha256', 'diffie-hellman-group-exchange-sha256'], 'key': ['ssh-ed25519'], 'hostkeys': HK_ED, 'moduli': [1024], 'gex_style': 'roundup', 'latency': True},
     'gex4096-slow': {'banner': 'SSH-2.0-dropbear_2020.81', 'kex': ['curve25519-sha256', 'diffie-hellman-group-exchange-sha256'], 'key': ['ssh-ed25519'], 'hostkeys': HK_ED, 'moduli': [4096], 'gex_style': 'roundup', 'latency': True},
+    # a second server that triggers the OpenSSH fallback handling, with other flagged algorithms than the first
+    'gex2048ossh-b': {'banner': 'SSH-2.0-OpenSSH_8.0', 'kex': ['curve25519-sha256', 'diffie-hellman-group-exchange-sha256'], 'key': ['ssh-ed25519'], 'enc': ['aes128-ctr', '3des-cbc', 'aes256-cbc'], 'mac': ['hmac-sha2-256', 'hmac-md5', 'hmac-sha1-etm@openssh.com'], 'hostkeys': HK_ED, 'moduli': [], 'gex_style': 'openssh'},
+    # Diffie-Hellman servers that treat bursts of connections differently (it shows when the rate check runs)
+    'dh-open':      {'kex': ['diffie-hellman-group14-sha256', 'curve25519-sha256'], 'key': ['ssh-ed25519'], 'hostkeys': HK_ED, 'rate': 'normal'},
+    'dh-throttled': {'kex': ['diffie-hellman-group14-sha256', 'curve25519-sha256'], 'key': ['ssh-ed25519'], 'hostkeys': HK_ED, 'rate': 'stall'},
+    'dh-maxstartups': {'kex': ['diffie-hellman-group16-sha512'], 'key': ['ssh-ed25519'], 'hostkeys': HK_ED, 'rate': 'mixed:4:greet:Exceeded MaxStartups\r\n'},
     'ssh1':       {'proto': 1},
     'refuse':     None,
 }
@@ -70,7 +76,7 @@ key exchanges = sntrup761x25519-sha512@openssh.com, curve25519-sha256
 ciphers = aes256-gcm@openssh.com, aes128-ctr
 macs = hmac-sha2-256-etm@openssh.com
 '''
-MODES = {'text': ['-n'], 'json': ['-n', '-j'], 'policy': ['-n', '-P', None], 'policy-json': ['-n', '-j', '-P', None]}
+MODES = {'text': ['-n'], 'json': ['-n', '-j'], 'policy': ['-n', '-P', None], 'policy-json': ['-n', '-j', '-P', None], 'text-rate': ['-n'], 'json-rate': ['-n', '-j']}      # '-rate': the connection-rate check runs
 _solo_cache = {}
 OOB_LINES = ('[exception] invalid ssh packet (block size)', '[exception] packet checksum CRC32 mismatch.')
 
@@ -82,7 +88,7 @@ def add_target(net, host, arch, port=22):
         return
     s = dict(spec)
     s.setdefault('banner', 'SSH-2.0-OpenSSH_9.3')
-    net.add(host, port, fakenet.peer_from_spec(s))
+    net.add(host, port, fakenet.peer_from_spec(s), ips=net.resolve.get(host))      # a name listed again (on another port) keeps its address
 
 
 def split_target(t):
@@ -96,7 +102,7 @@ def run_targets(hosts_archs, mode, threads, choices, gate_connections=True, poli
     for h, a in hosts_archs:
         add_target(net, split_target(h)[0], a, split_target(h)[1])
     tf = drive.tmpfile('\n'.join(h for h, _ in hosts_archs) + '\n')
-    argv = [x if x is not None else policy_path for x in MODES[mode]] + ['--skip-rate-test', '--threads', str(threads), '-T', tf]
+    argv = [x if x is not None else policy_path for x in MODES[mode]] + ([] if mode.endswith('-rate') else ['--skip-rate-test']) + ['--threads', str(threads), '-T', tf]
     try:
         if choices is None:
             r = drive.run_cli(argv, net)
@@ -108,9 +114,17 @@ def run_targets(hosts_archs, mode, threads, choices, gate_connections=True, poli
     return r, sch
 
 
+RATE_NUMBERS = None
+
+
 def blocks_of(out, mode):
     """-> dict target-host -> block text (text modes) or JSON value (json modes); None if unparseable."""
-    if mode in ('json', 'policy-json'):
+    global RATE_NUMBERS
+    if RATE_NUMBERS is None:
+        import re
+        RATE_NUMBERS = re.compile(r'(\d+) connections were created in [\d.]+ seconds, or [\d.]+ conns/sec')
+    out = RATE_NUMBERS.sub(r'\1 connections were created in T seconds, or R conns/sec', out)       # how long the burst took is a measurement, not a finding
+    if mode in ('json', 'policy-json', 'json-rate'):
         try:
             arr = json.loads(out)
         except ValueError:
@@ -188,7 +202,7 @@ def eval_case(case):
         return eval_real(case)
     archs, mode, threads = case['archs'], case['mode'], case['threads']
     ports = case.get('ports') or [None] * len(archs)
-    hosts_archs = [('t%d' % i if ports[i] is None else 't%d:%d' % (i, ports[i]), a) for i, a in enumerate(archs)]
+    hosts_archs = [('t%d' % (0 if case.get('samehost') else i) if ports[i] is None else 't%d:%d' % (0 if case.get('samehost') else i, ports[i]), a) for i, a in enumerate(archs)]
     policy_path = None
     if mode.startswith('policy'):
         policy_path = drive.tmpfile(POLICY)
@@ -238,7 +252,7 @@ def eval_case(case):
 def _diff(want, have, mode):
     if have is None:
         return 'block missing'
-    if mode in ('json', 'policy-json'):
+    if mode in ('json', 'policy-json', 'json-rate'):
         a, b = json.dumps(want, sort_keys=True, indent=0).split('\n'), json.dumps(have, sort_keys=True, indent=0).split('\n')
     else:
         a, b = '\n'.join(want).split('\n'), '\n'.join(have).split('\n')
@@ -289,6 +303,12 @@ def run(ctx):
             if rng.random() < 0.5:
                 k = rng.choice([1, 2, 3])
                 cases.append({'archs': list(tr), 'mode': rng.choice(['text', 'json']), 'threads': k, 'choices': [rng.randint(0, 2) for _ in range(30)]})
+    # (one worker: the rate check measures against the clock, which concurrent scans would share)
+    # with the rate check running: servers on one address (several ports of one host) and on different ones
+    dh = ['dh-open', 'dh-throttled', 'dh-maxstartups', 'clean', 'gex1024']
+    for i, (a, b) in enumerate(itertools.permutations(dh, 2)):
+        for same in (True, False):
+            cases.append({'archs': [a, b], 'mode': ('text-rate', 'json-rate')[i % 2], 'threads': 1, 'choices': [0], 'ports': [2200, 2201] if same else None, 'samehost': same})
     # more targets and worker threads than any fixed-size table of per-thread state would hold: 33-40 scans in their
     # probing phase at once (every worker is inside a scan before the first one finishes)
     wide_arch = ['rsa1024', 'gex1024', 'terrapin', 'smallca', 'clean', 'rsa2048']
